@@ -700,7 +700,8 @@ class LLUDPMessageLogEntry(AbstractMessageLogEntry):
             return self._message
         elif self._frozen_message:
             message = pickle.loads(self._frozen_message)
-            message.deserializer = self._deserializer
+            if self._deserializer is not None:
+                message.deserializer = weakref.ref(self._deserializer)
             return message
         else:
             raise ValueError("Didn't have a fresh or frozen message somehow")
@@ -710,12 +711,16 @@ class LLUDPMessageLogEntry(AbstractMessageLogEntry):
         message.invalidate_caches()
         # These are expensive to keep around. pickle them and un-pickle on
         # an as-needed basis.
-        self._deserializer = self.message.deserializer
+        # The message only weakly references its deserializer. Keep the deserializer itself
+        # around, a body that hasn't been parsed yet can't be made sense of once the
+        # connection that owned the deserializer is gone.
+        deserializer_ref = message.deserializer
+        self._deserializer = deserializer_ref() if deserializer_ref is not None else None
         message.deserializer = None
         try:
             self._frozen_message = pickle.dumps(self._message, protocol=pickle.HIGHEST_PROTOCOL)
         finally:
-            message.deserializer = self._deserializer
+            message.deserializer = deserializer_ref
         self._message = None
 
     @property
